@@ -64,6 +64,30 @@ class SymToken:
         raise Unsupported("ordering of external tokens")
 
 
+class NdArray:
+    """numpy.array(list of numbers): a 1-D constant array (only its length and its entries are observable)"""
+
+    def __init__(self, values):
+        self.values = list(values)
+
+    def __vf_getattr__(self, I, name):
+        if name == "shape":
+            return (len(self.values),)
+        if name == "ndim":
+            return 1
+        if name == "dtype":
+            # numpy.array of Python numbers / reals: a floating dtype (integer observations are promoted by the cat with
+            # float tensors downstream; the dtype only selects the symbolic DataType here)
+            return Opaque("np_dtype", {"type": ExternalVal("numpy.float64")})
+        raise Unsupported(f"ndarray.{name}")
+
+    def __vf_isinstance__(self, I, t):
+        return getattr(t, "name", getattr(t, "dotted", "")).split(".")[-1] == "ndarray"
+
+    def __vf_len__(self, I):
+        return len(self.values)
+
+
 class Deque:
     """collections.deque restricted to append / appendleft / pop / popleft / len / truthiness / iteration"""
 
@@ -159,7 +183,11 @@ def install(I):
         return d
 
     def defaultdict(I, args, kwargs):
-        raise Unsupported("defaultdict")
+        d = B.DDict()
+        d.factory = args[0] if args else None
+        if d.factory is None:
+            raise Unsupported("defaultdict without factory")
+        return d
 
     def deque(I, args, kwargs):
         return Deque(B.iterate(I, args[0]) if args else [])
@@ -170,7 +198,18 @@ def install(I):
             return math.log(args[0])
         raise Unsupported("numpy.log of non-constant")
 
+    def np_array(I, args, kwargs):
+        return NdArray(B.iterate(I, args[0]))
+
+    def np_broadcast_shapes(I, args, kwargs):
+        a, b = (list(B.iterate(I, x)) for x in args[:2])
+        if len(a) == len(b) and all(I.path.must(to_z3(x) == to_z3(y)) if (is_z3(x) or is_z3(y)) else x == y for x, y in zip(a, b)):
+            return tuple(b)
+        raise Unsupported("numpy.broadcast_shapes of shapes not provably equal")
+
     ext.update({
+        "numpy.array": np_array,
+        "numpy.broadcast_shapes": np_broadcast_shapes,
         "numpy.log": np_log,
         "math.log": np_log,
         "functools.partial": partial,
